@@ -73,6 +73,14 @@ def bits(x):
     return 'nan' if x != x else struct.pack('<d', x).hex()
 
 
+# structured special values (class H): three-digit decimal exponents on both sides, the two-/three-digit boundaries
+# 1E+99 | 1E+100 and 1E-99 | 1E-100, denormals (exponents -308 … -324), signed zeros, extremes
+SPECIAL = [0.0, -0.0, 5e-324, -2.2250738585072014e-308, 1.7976931348623157e308, 1e300, -1e-300, 1e-5, 123456789.12345679,
+           -1.0, 0.1, 1.5e-100, -4.0e+100, 6.9316543871775429e-310, -6.93e-310, 2.5e+120, -3.2499999999999997e-123,
+           9.9999999999999997e+99, 1e+100, -1e+100, 1e-99, 9.9999999999999994e-100, -1e-100, 1e+99, 1.2345678901234567e-101,
+           -9.9999999999999998e+149, 7.7499999999999994e-105, 4.9e-320, -1e-310]
+
+
 def rand_float(rnd):
     k = rnd.random()
     if k < .2:
@@ -82,8 +90,7 @@ def rand_float(rnd):
     if k < .6:
         return float('%.12e' % rnd.uniform(-1e5, 1e5))
     if k < .72:
-        return rnd.choice([0.0, -0.0, 5e-324, -2.2250738585072014e-308, 1.7976931348623157e308, 1e300, -1e-300, 1e-5,
-                           123456789.12345679, -1.0, 0.1])
+        return rnd.choice(SPECIAL)
     while True:
         x = struct.unpack('<d', struct.pack('<Q', rnd.getrandbits(64)))[0]
         if x == x and not math.isinf(x):
@@ -361,6 +368,8 @@ def write_files(ctx, case, texts):
 
 
 def size_of(case):
+    if 'large' in case:
+        return (10**6, case['large']['n_lines'], 0)
     return (len(case['steps']), len(case['nodal_order']) + len(case['elem_order']),
             len(case['nodal_vars']) + len(case['elem_vars']))
 
@@ -474,6 +483,13 @@ def run_case(ctx, case, cfg_mismatch, stream='main'):
         if not hyp and main:
             ctx.disagree('generated case violates the Boolean hypotheses of C02_parse_render_chars', brief(case),
                          'in-quantifier input', 'fileOKB && hdrOKB = false')
+        # the harness's own renderer (used for the LARGE files of the size-boundary stream, which are not pushed through
+        # the line protocol) is held to the model's renderer, character by character, on every small file
+        for s in case['steps']:
+            ctx.count('fast renderer = model renderer (characters): ' + ('yes' if fast_render(case, s) == texts[s] else 'NO'))
+            if fast_render(case, s) != texts[s]:
+                ctx.disagree('harness fast renderer != model renderer', {**brief(case), 'step': s},
+                             fast_render(case, s)[:300], texts[s][:300])
     else:
         texts = {int(s): t for s, t in case['files'].items()} if 'files' in case else None
         if texts is None:
@@ -569,6 +585,264 @@ def py_render(case, step):
     return L
 
 
+def fast_render(case, step):
+    """the characters of the result file of `step`, rendered by the harness itself (same hand specification as
+    Femio.C02.renderFile).  Used for the LARGE files, which are too slow to push through the line protocol; it is
+    cross-checked character by character against the model's renderer on every small main-stream case of the same run."""
+    return '\n'.join(py_render(case, step)) + '\n'
+
+
+# ------------------------------------------------------------------ size boundaries (class G): large-but-cheap files
+# One block (nodal or elemental) of a result file has MORE lines than a power-of-two block size b (2^16, 2^17 = 2 x 2^16)
+# while its number of lines per record (1 id line + the wrapped value lines) does not divide b; the other block and the
+# mesh stay small.  Everything is derived deterministically from the parameter dict (that is what the replay stores).
+
+ARITY = {'line': 2, 'line2': 3, 'tri': 3, 'quad': 4, 'tet': 4, 'tet2': 10, 'prism': 6, 'hex': 8, 'hex2': 20}
+# (values per line, values per record) by lines per record
+STRIDE_SHAPES = {2: [(1, 1), (5, 3), (10, 9)], 3: [(1, 2), (2, 3), (2, 4), (5, 7), (5, 6), (3, 4)],
+                 4: [(1, 3), (5, 13), (2, 6)], 5: [(1, 4), (2, 7), (5, 16), (5, 20)], 6: [(1, 5), (2, 9), (5, 21), (3, 13)],
+                 7: [(1, 6), (2, 11), (2, 12), (5, 26)], 9: [(1, 8), (2, 15)]}
+
+
+def gen_large(rnd, n_blocks, which, layout, stride=None, delta=None, block=65536, steps=None):
+    """parameters of a large case: the `which` block has n_big records of `stride` lines, n_big * stride just above
+    (delta records beyond) n_blocks * block lines"""
+    stride = stride or rnd.choice([3, 3, 5, 6, 7])
+    wrap, comps = rnd.choice(STRIDE_SHAPES[stride])
+    base = (n_blocks * block) // stride
+    n_big = base + (delta if delta is not None else rnd.choice([1, 1, 2, 3, rnd.randint(4, 60), rnd.randint(60, 400)]))
+    return {'which': which, 'layout': layout, 'stride': stride, 'wrap': wrap, 'comps': comps, 'n_big': n_big,
+            'n_lines': n_big * stride, 'trail': rnd.random() < .7, 'seed': rnd.getrandbits(32),
+            'steps': list(steps or [rnd.choice([1, 3, 10, 100])]),
+            'ids': rnd.choice(['dense', 'sparse', 'sparse', 'huge']), 'storage': rnd.choice(['asc', 'desc', 'shuf', 'midshuf']),
+            'row_order': rnd.choice(['mesh', 'asc', 'shuf']), 'mixed': rnd.random() < .5,
+            'other_stride': rnd.choice([2, 3, 4, 5])}
+
+
+def split_widths(rs, total, pool, prefix):
+    """variables [name, width] whose widths add up to `total`"""
+    out = []
+    left = total
+    while left:
+        w = int(rs.choice([x for x in (1, 1, 2, 3, 3, 6, 7, 9, left) if x <= left]))
+        out.append([pool[len(out)] if len(out) < len(pool) else f'{prefix}{len(out)}', w])
+        left -= w
+    return out
+
+
+def rand_values(rs, shape):
+    """finite float64 values: mostly arbitrary bit patterns (two thirds of them have a three-digit decimal exponent),
+    some small integers / dyadic rationals / decimals, and the structured special values"""
+    n = int(np.prod(shape))
+    v = rs.integers(0, 2**64, size=n, dtype=np.uint64).view(np.float64).copy()
+    bad = ~np.isfinite(v)
+    v[bad] = rs.integers(-50, 50, size=int(bad.sum())).astype(float)
+    k = rs.random(n)
+    m = k < .15
+    v[m] = rs.integers(-50, 50, size=int(m.sum())).astype(float)
+    m = (k >= .15) & (k < .3)
+    v[m] = rs.integers(-10**6, 10**6, size=int(m.sum())) / 2.0**rs.integers(0, 20, size=int(m.sum()))
+    m = (k >= .3) & (k < .4)
+    v[m] = np.round(rs.uniform(-1e5, 1e5, size=int(m.sum())), 7)
+    m = (k >= .4) & (k < .45)
+    v[m] = np.asarray(SPECIAL)[rs.integers(0, len(SPECIAL), size=int(m.sum()))]
+    return v.reshape(shape)
+
+
+def make_ids(rs, n, style, storage):
+    if style == 'dense':
+        ids = np.arange(1, n + 1) + int(rs.integers(0, 1000))
+    elif style == 'sparse':
+        ids = np.sort(rs.choice(np.arange(1, 20 * n + 50), size=n, replace=False))
+    else:
+        ids = np.sort(rs.choice(np.arange(1, 20 * n + 50), size=n, replace=False)) + int(rs.integers(10**6, 2 * 10**9 - 20 * n - 60))
+    if storage == 'desc':
+        ids = ids[::-1].copy()
+    elif storage == 'shuf':
+        rs.shuffle(ids)
+    elif storage == 'midshuf':
+        rs.shuffle(ids[1:-1])
+    return ids.astype(np.int64)
+
+
+def expand_large(par):
+    """-> case dict in the format of gen_case (mesh / variables / orders / wraps), with `values`: {step: (nodal array,
+    elemental array)} as float64 arrays in row order and the token rows under 'data'"""
+    rs = np.random.default_rng(par['seed'])
+    big_nodal = par['which'] == 'nodal'
+    n_big = par['n_big']
+    if big_nodal:
+        n_nodes = n_big
+        types = [str(rs.choice(['hex2', 'hex2', 'tet2', 'hex']))]
+        a = ARITY[types[0]]
+        n_main = -(-n_nodes // a)
+        extra = str(rs.choice(['tet', 'prism', 'tri', 'line'])) if par['mixed'] else None
+        n_extra = int(rs.integers(1, 6)) if extra else 0
+    else:
+        n_nodes = int(rs.integers(40, 200))
+        types = [str(rs.choice(['line', 'tri', 'line', 'quad', 'tet']))]
+        if par['mixed']:
+            types.append(str(rs.choice([t for t in ['line', 'tri', 'quad', 'tet', 'prism'] if t != types[0]])))
+        n_main, extra, n_extra = n_big, None, 0
+    n_elems = n_main + n_extra
+    nids = make_ids(rs, n_nodes, par['ids'], par['storage'])
+    eids = make_ids(rs, n_elems, par['ids'] if rs.random() < .7 else 'dense', str(rs.choice(['asc', 'desc', 'shuf', 'midshuf'])))
+    # connectivity over node POSITIONS; every node is referenced
+    blocks = {}
+    if big_nodal:
+        a = ARITY[types[0]]
+        pos = (np.arange(n_main)[:, None] * a + np.arange(a)[None, :]) % n_nodes
+        e_type = np.zeros(n_elems, dtype=int)
+        conn = {0: pos}
+        if extra:
+            ax = ARITY[extra]
+            conn[1] = np.stack([rs.choice(n_nodes, size=ax, replace=False) for _ in range(n_extra)])
+            where = rs.choice(n_elems, size=n_extra, replace=False)
+            e_type[where] = 1
+            types.append(extra)
+    else:
+        # element k of type k % len(types) (ids of the types interleave) or the types in two contiguous runs
+        e_type = (np.arange(n_elems) % len(types)) if rs.random() < .6 else (np.arange(n_elems) * len(types) // n_elems)
+        conn = {}
+        for ti, t in enumerate(types):
+            a = ARITY[t]
+            ks = np.flatnonzero(e_type == ti)
+            off = 1 + (ks // n_nodes) % max(1, (n_nodes - 1) // a)
+            conn[ti] = (ks[:, None] + np.arange(a)[None, :] * off[:, None]) % n_nodes
+    for ti, t in enumerate(types):
+        ks = np.flatnonzero(e_type == ti)
+        blocks[t] = (eids[ks], nids[conn[ti]])
+    if rs.random() < .5 and len(types) > 1:
+        blocks = dict(reversed(list(blocks.items())))
+    coords = rs.integers(-1000, 1000, size=(n_nodes, 3)) / 8.0
+
+    def row_order(ids):
+        ids = ids.copy()
+        if par['row_order'] == 'asc':
+            ids.sort()
+        elif par['row_order'] == 'shuf':
+            rs.shuffle(ids)
+        return ids
+    n_order, e_order = row_order(nids), row_order(np.concatenate([b[0] for b in blocks.values()]))
+    ow, oc = STRIDE_SHAPES[par['other_stride']][int(rs.integers(0, len(STRIDE_SHAPES[par['other_stride']])))]
+    (wv_n, c_n), (wv_e, c_e) = ((par['wrap'], par['comps']), (ow, oc)) if big_nodal else ((ow, oc), (par['wrap'], par['comps']))
+    nv = split_widths(rs, c_n, NAMES_N, 'NV')
+    ev = split_widths(rs, c_e, NAMES_E, 'EV')
+    values = {s: (rand_values(rs, (n_nodes, c_n)), rand_values(rs, (n_elems, c_e))) for s in par['steps']}
+    return {'large': par, 'layout': par['layout'], 'trail': par['trail'], 'wraps': [int(rs.choice([1, 2, 10])), wv_n,
+                                                                                   int(rs.choice([1, 2, 10])), wv_e],
+            'nodal_vars': nv, 'elem_vars': ev, 'nodal_order': n_order, 'elem_order': e_order, 'steps': list(par['steps']),
+            'values': values, 'blocks': blocks, 'node_ids': nids, 'coords': coords, 'stem': 'm', 'dir': 'c02', 'rank': 0}
+
+
+def large_msh_text(case):
+    L = ['!HEADER', ' generated by the C02 harness (large)', '!NODE']
+    L += ['%d, %r, %r, %r' % (i, x, y, z) for i, (x, y, z) in zip(case['node_ids'].tolist(), case['coords'].tolist())]
+    for t, (ids, conn) in case['blocks'].items():
+        L.append('!ELEMENT, TYPE=%d' % CODE[t])
+        L += [', '.join(map(str, [e] + c)) for e, c in zip(ids.tolist(), conn.tolist())]
+    L.append('!END')
+    return '\n'.join(L) + '\n'
+
+
+def large_tokens(case, step):
+    """token rows of one step, in the format `py_render` takes"""
+    nod, ele = case['values'][step]
+    return {'nodal': [['%.16E' % x for x in r] for r in nod.tolist()], 'elem': [['%.16E' % x for x in r] for r in ele.tolist()]}
+
+
+def brief_large(case):
+    par = case['large']
+    return {'large': par, 'mesh': {'types': list(case['blocks']), 'n_nodes': len(case['nodal_order']),
+                                   'n_elems': len(case['elem_order'])},
+            'layout': case['layout'], 'wraps': case['wraps'], 'nodal_vars': case['nodal_vars'], 'elem_vars': case['elem_vars']}
+
+
+def oracle_large(ctx, par, report, series=False):
+    """the property on the real API, vectorised: every value under its id / variable / component (bit patterns)"""
+    import shutil
+    from femio import FEMData
+    case = expand_large(par)
+    lay = case['layout']
+    d = ctx.tmp / 'c02'
+    for old in set(DIRS):
+        if (ctx.tmp / old).exists():
+            shutil.rmtree(ctx.tmp / old)
+    d.mkdir()
+    (d / 'm.msh').write_text(large_msh_text(case))
+    small = {k: case[k] for k in ('layout', 'trail', 'wraps', 'nodal_vars', 'elem_vars')}
+    small['nodal_order'], small['elem_order'] = case['nodal_order'].tolist(), case['elem_order'].tolist()
+    for s in case['steps']:
+        small['data'] = {str(s): large_tokens(case, s)}
+        (d / f'm.res.0.{s}').write_text(fast_render(small, s))
+    del small
+    steps = sorted(case['steps'])
+
+    def compare(fd, s, k, tag):
+        """slice k (None: not a series) of the object read against the data written for step s"""
+        for key, attrs, vars_, ids, vals in (('nodal', fd.nodal_data, case['nodal_vars'], case['nodal_order'], case['values'][s][0]),
+                                             ('elem', fd.elemental_data, case['elem_vars'], case['elem_order'], case['values'][s][1])):
+            names = sorted(n for n in attrs.keys() if n != 'NODE')
+            if names != sorted(n for n, _ in vars_):
+                report(f'variables-differ:{key}:{lay}', f'{tag}: variables read {names} != written {sorted(n for n, _ in vars_)}',
+                       {'read': names})
+                continue
+            by = np.argsort(ids)
+            off = 0
+            for n, w in vars_:
+                got_ids = np.asarray(attrs[n].ids).astype(np.int64)
+                got = np.asarray(attrs[n].data, dtype=np.float64)
+                if k is not None:
+                    got = got[k] if got.ndim == 3 and len(got) > k else None
+                want = vals[:, off:off + w]
+                off += w
+                if got is None or sorted(got_ids.tolist()) != ids[by].tolist() or got.shape != (len(ids), w):
+                    report(f'misattributed:{key}:{lay}', f'{tag}, {key} variable {n!r}: ids / shape read differ from the '
+                           f'ones written', {'variable': n, 'shape': None if got is None else list(got.shape),
+                                             'n_ids': len(got_ids)})
+                    continue
+                rows = by[np.searchsorted(ids[by], got_ids)]
+                bad = np.argwhere(np.ascontiguousarray(got).view(np.uint64) != np.ascontiguousarray(want[rows]).view(np.uint64))
+                if len(bad):
+                    r, c = bad[0]
+                    report(f'misattributed:{key}:{lay}', f'{tag}, {key} variable {n!r}: value read under id {int(got_ids[r])} '
+                           f'component {int(c)} is not the value written for it',
+                           {'variable': n, 'id': int(got_ids[r]), 'component': int(c), 'read': repr(float(got[r, c])),
+                            'written': '%.16E' % want[rows[r], c], 'n_wrong': len(bad)})
+    for s in steps:
+        fd, err = real(FEMData.read_files, 'fistr', [str(d / 'm.msh'), str(d / f'm.res.0.{s}')])
+        if err:
+            report(f'single-step-read-raises:{lay}', f'read_files of step {s} raises {err}', {'error': err})
+            continue
+        if sorted(int(i) for i in fd.nodes.ids) != sorted(case['nodal_order'].tolist()):
+            raise RuntimeError('harness: the large .msh was not read back with the generated node ids')
+        compare(fd, s, None, f'step {s}')
+    if series:
+        fd, err = real(FEMData.read_directory, 'fistr', d, read_npy=False, save=False, time_series=True)
+        if err:
+            report(f'series-read-raises:{lay}', f'read_directory(time_series=True) over steps {steps} raises {err}',
+                   {'error': err, 'steps': steps})
+        else:
+            got_steps = [int(x) for x in fd.settings.get('time_steps', [])]
+            if got_steps != steps:
+                report('series-steps-not-ascending', f"settings['time_steps'] = {got_steps} for steps {steps}",
+                       {'time_steps': got_steps})
+            for k, s in enumerate(steps):
+                compare(fd, s, k, f'series slice {k} (step {s})')
+    return case
+
+
+def run_large(ctx, par, series=False):
+    def report(sig, what, observed):
+        ctx.fail(sig, what + f" [large file: {par['which']} block of {par['n_big']} records x {par['stride']} lines = "
+                 f"{par['n_lines']} lines]", {'large': par, 'series': series}, observed)
+    case = oracle_large(ctx, par, report, series)
+    ctx.case(('large', str(par)), sample=brief_large(case), nontrivial=True)
+    ctx.count(f"large: {par['which']} block, {par['stride']} lines per record, > {par['n_lines'] // 65536} x 65536 lines, "
+              f"layout {par['layout']}")
+    ctx.count('large: mesh ' + '+'.join(case['blocks']))
+
+
 def run(ctx):
     n_cases = ctx.n(140, 1500) if ctx.driver is not None else ctx.n(250, 2000)
     cfg_mismatch = {'fixed': [], 'upstream': []}
@@ -598,6 +872,28 @@ def run(ctx):
         ctx.count(f"n_elem_vars:{len(case['elem_vars'])}")
         ctx.count('value-lines-wrapped:' + str(wrapped))
         run_case(ctx, case, cfg_mismatch)
+    # size boundaries (class G): large-but-cheap files, one block of more than k x 2^16 lines whose lines per record do
+    # not divide the block size; rendered by fast_render (cross-checked above), judged by the vectorised oracle
+    lay = ctx.rng.sample(['old', 'v2'], 2)
+    big = ctx.rng.sample(['nodal', 'elem'], 2)
+    if ctx.quick:
+        plan = [dict(n_blocks=1, which=big[0], layout=lay[0], stride=3),
+                dict(n_blocks=2, which=big[1], layout=lay[1], stride=ctx.rng.choice([3, 5, 6, 7]))]
+    else:
+        plan = [dict(n_blocks=nb, which=w, layout=ctx.rng.choice(lay), stride=st)
+                for nb in (1, 2) for w in big for st in (3, 5, 6, 7)]
+        # records ending exactly at / one line around the block boundaries, power-of-two strides as controls, 3 blocks,
+        # other block sizes a chunked reader might use, a two-step series
+        plan += [dict(n_blocks=nb, which=ctx.rng.choice(big), layout=ctx.rng.choice(lay), stride=st, delta=dl)
+                 for nb in (1, 2) for st, dl in ((3, 0), (3, 1), (5, 0), (6, 1), (7, 0), (2, 1), (4, 1), (9, 2))]
+        plan += [dict(n_blocks=3, which=big[0], layout=lay[0], stride=3),
+                 dict(n_blocks=1, which=big[1], layout=lay[1], stride=3, block=2**15),
+                 dict(n_blocks=1, which=big[0], layout=lay[1], stride=7, block=10**5),
+                 dict(n_blocks=1, which=big[0], layout=lay[0], stride=5, block=2**14),
+                 dict(n_blocks=1, which=big[1], layout=lay[0], stride=3, steps=[2, 10])]
+    for kw in plan:
+        par = gen_large(ctx.rng, **kw)
+        run_large(ctx, par, series=len(par['steps']) > 1)
     # separate labelled stream: meshes with unreferenced nodes (outside the quantifier; classified, never `fail`)
     for k in range(ctx.n(10, 60)):
         case = gen_case(ctx.rng, keep_unref=True)
@@ -618,6 +914,11 @@ def run(ctx):
 
 def replay(ctx, obj):
     case = obj['input']
+    if 'large' in case:
+        found = []
+        big = oracle_large(ctx, case['large'], lambda sig, what, observed: found.append(
+            {'signature': sig, 'what': what, 'observed': observed}), case.get('series', False))
+        return {'case': brief_large(big), 'failures': found, 'fails': bool(found)}
     texts = {int(s): t for s, t in case['files'].items()}
     d = write_files(ctx, case, texts)
     found = []
